@@ -50,12 +50,18 @@ var c17 = Register("C17", "C17.root", func(a c17Args) *Violation {
 			}
 		} else if g.Class != ref.Inf || g.Neg != n.Neg {
 			return violf("%s(%s) = %s", name, n, g)
+		} else if got != d {
+			// "zeros, +Inf (and -Inf for Cbrt) return themselves": the operand, not another encoding of its value
+			return violf("%s(%s) = %s: an infinite argument is returned itself, bit for bit", name, a.V, DOf(got))
 		}
 		st.Class("special")
 		return nil
 	case n.IsZero():
 		if !g.IsZero() || g.Neg != n.Neg {
 			return violf("%s(%s) = %s, want the zero itself", name, n, g)
+		}
+		if got != d {
+			return violf("%s(%s) = %s: a zero argument is returned itself (same exponent field), bit for bit", name, a.V, DOf(got))
 		}
 		st.Class("zero")
 		return nil
